@@ -23,7 +23,7 @@ def tick(op, *a):
         os._exit(17)
     if STATE["sched_r"] is not None:
         # ask the scheduler for permission to perform operation n
-        _real["write"](STATE["sched_w"], ("%d %s\n" % (n, op)).encode())
+        _real["write"](STATE["sched_w"], ("%d %s %s\n" % (n, op, str(a[0]).replace("\n", " ") if a else "")).encode())
         b = _real["read"](STATE["sched_r"], 1)
         if not b or b == b"K":
             os._exit(17)
@@ -92,6 +92,79 @@ def install(base):
             tick("realpath", rel(p))
         return _real["realpath"](p, *a, **k)
     os.path.exists, os.path.lexists, os.path.isdir, os.path.realpath = exists, lexists, isdir, realpath
+
+    # listing a directory and asking about the entries one by one are separate operations: an entry may be gone when it is asked
+    # about (another process renamed its temporary file in between)
+    _real["scandir"], _real["listdir"] = os.scandir, os.listdir
+    _real["getsize"], _real["isfile"], _real["islink"] = os.path.getsize, os.path.isfile, os.path.islink
+
+    class Entry(object):
+        """an entry of a directory listing: its kind was read with the listing (no further question to the file system, as with
+        os.DirEntry on the usual file systems); its size and times are asked for later, when the file may be gone"""
+        def __init__(self, e):
+            self._e, self.name, self.path = e, e.name, e.path
+            self._kind = (e.is_file(follow_symlinks=False), e.is_dir(follow_symlinks=False), e.is_symlink())
+
+        def stat(self, **k):
+            tick("stat", rel(self.path))
+            return os.stat(self.path, **k)
+
+        def is_file(self, follow_symlinks=True):
+            if self._kind[2] and follow_symlinks:
+                tick("stat", rel(self.path))
+                return _real["isfile"](self.path)
+            return self._kind[0]
+
+        def is_dir(self, follow_symlinks=True):
+            if self._kind[2] and follow_symlinks:
+                tick("stat", rel(self.path))
+                return _real["isdir"](self.path)
+            return self._kind[1]
+
+        def is_symlink(self):
+            return self._kind[2]
+
+        def __fspath__(self):
+            return self.path
+
+    class Listing(object):
+        def __init__(self, entries):
+            self._entries = entries
+
+        def __iter__(self):
+            return iter(self._entries)
+
+        def __enter__(self):
+            return self
+
+        def __exit__(self, *e):
+            return False
+
+        def close(self):
+            pass
+
+    def scandir(p="."):
+        if _inside(p):
+            tick("listdir", rel(p))
+            with _real["scandir"](p) as it:
+                return Listing([Entry(e) for e in it])
+        return _real["scandir"](p)
+
+    def listdir(p="."):
+        if _inside(p):
+            tick("listdir", rel(p))
+        return _real["listdir"](p)
+
+    def getsize(p):
+        if _inside(p):
+            tick("stat", rel(p))
+        return _real["getsize"](p)
+
+    def isfile(p):
+        if _inside(p):
+            tick("stat", rel(p))
+        return _real["isfile"](p)
+    os.scandir, os.listdir, os.path.getsize, os.path.isfile = scandir, listdir, getsize, isfile
 
     class F(object):
         """a file opened for writing: what is written stays in the buffer of the file object (as it does in Python for anything
